@@ -118,6 +118,10 @@ EffFirst(new) == IF IsTextNode(new) THEN (LET k == AttachPrefixLen(new.s, 0) IN 
 (* immediately: '\a{x} [b]' leaves ' [b]' in the text (while '\a{x}[b]' and '\a [b]' attach)                              *)
 DetachedBracket(anchor, new) == /\ IsTextNode(new) /\ AttachPrefixLen(new.s, 0) > 0 /\ EffFirst(new) = "["
                                 /\ anchor.k = "cmd" /\ anchor # EnvHead /\ anchor.name \notin SigNames /\ NKind(anchor.args, "{") > 0
+(* G12: a command that is named like a size prefix (\left, \big, ...) takes a directly following delimiter character into  *)
+(* its name: it is only generated in front of something else                                                                *)
+BareSizePrefix(x) == x.k = "cmd" /\ x.name \in SizePrefix /\ x.args = <<>> /\ x.body = <<>>
+DelimFirst == {d[1] : d \in Delims}
 CanFollow(fr, new) ==
   LET its == fr.items
       nf == First(Src(new))
@@ -131,6 +135,7 @@ CanFollow(fr, new) ==
      /\ ~(prev.k = "text" /\ prev.kind = "Com" /\ ~(IsTextNode(new) /\ nf \in {"\n", "\r"}))         \* G4 (a line break: LF or CR)
      /\ ~(prev.k = "math" /\ prev.kind = "$" /\ nf = "$")                                         \* G5: "$a$$..." is ambiguous; "$$a$$$b$" is not (longest match)
      /\ ~(IsTextNode(prev) /\ LoneBackslashEnd(prev.s))                                          \* a text run never ends in a lone backslash
+     /\ ~(BareSizePrefix(prev) /\ nf \in DelimFirst)                                             \* G12
 
 TopG == gstack[Len(gstack)]
 Frame(ck, kind, name, hd) == [ck |-> ck, kind |-> kind, name |-> name, args |-> <<>>, hd |-> hd, items |-> <<>>, pre |-> <<>>]
@@ -203,6 +208,7 @@ OpenItem ==
 
 LastOK(fr) == IF fr.items = <<>> THEN TRUE
               ELSE /\ ~(Last(fr.items).k = "text" /\ Last(fr.items).kind = "Com")
+                   /\ ~(BareSizePrefix(Last(fr.items)) /\ fr.ck \in {"group", "arg"})        \* G12: "\big}" is a sizing command
                    /\ ~(IsTextNode(Last(fr.items)) /\ LoneBackslashEnd(Last(fr.items).s))
 (* an item (or list) may end with a command that has no argument only if what follows is not a letter: \end / \item follow, fine *)
 Close ==
